@@ -199,7 +199,12 @@ class Context:
         elif isinstance(literal, ast.Set):
             return_set = set()
             for si in literal.elts:
-                return_set.add(self._get_literal_value(si))
+                try:
+                    return_set.add(self._get_literal_value(si))
+                except TypeError:
+                    # an unhashable element, e.g. {[1]}: valid syntax that
+                    # fails only when the scanned program runs
+                    pass
             literal_value = return_set
 
         elif isinstance(literal, ast.Dict):
